@@ -27,6 +27,8 @@ mod c12_codec;
 mod c12_wire;
 #[cfg(kani)]
 mod c10_rules;
+#[cfg(all(kani, feature = "fs_core"))]
+mod c10_filters;
 #[cfg(kani)]
 mod c16_cached;
 #[cfg(kani)]
